@@ -125,3 +125,29 @@ Definition tree_case_b (banned : list N) (fs : fsmap) (root : bytes) (ot : otabl
   end.
 
 Definition tree_case := tree_case_b [].
+
+(* is the expanded forest nested as the context table prescribes? (hypothesis of the totality
+   theorem of the catalog builder, Props/C01.v) - None when there is no expanded forest *)
+Definition placed_case (fs : fsmap) (root : bytes) (ot : otable) (et : etable) (fuel : nat) : option bool :=
+  match fs_lookup fs root with
+  | Some (FFile content) =>
+      let st0 := initial_cstate ScannerProg.initial_state root content in
+      match scan_project ScannerProg.prog_table ScannerProg.is_newline_cond
+                         ScannerProg.is_whitespace_cond fs (olen_lookup ot)
+                         ScannerProg.initial_state fuel st0 with
+      | SDone st =>
+          let files := cs_files st in
+          let echeck (c : coords) : option (N * Z) :=
+            let name := fname_of files (co_file c) in
+            match List.find (fun r => match r with (n, b, e, _) => beq n name && (b =? co_begin c) && (e =? co_end c) end) et with
+            | Some (_, _, _, v) => Some v
+            | None => None
+            end in
+          match compile_macros echeck (Nat.min fuel 600) (cs_forest st) with
+          | XOk ex => Some (forallb (placed 64 None) (ex_forest ex))
+          | _ => None
+          end
+      | _ => None
+      end
+  | _ => None
+  end.
